@@ -18,7 +18,8 @@ import (
 
 type vhost struct {
 	id     string // canonical uuid text
-	ip     string // rpc/broadcast/peer address (all equal)
+	ip     string // rpc (native) address; also the broadcast/peer address unless peerIP is set
+	peerIP string // node-to-node (broadcast / peer) address when it differs from the rpc address
 	dc     string
 	rack   string
 	tokens []string
@@ -54,6 +55,13 @@ func uuidBytes(s string) []byte {
 		fmt.Sscanf(hex[2*i:2*i+2], "%02x", &out[i])
 	}
 	return out
+}
+
+func (h vhost) nodeIP() string {
+	if h.peerIP != "" {
+		return h.peerIP
+	}
+	return h.ip
 }
 
 func hostUUID(n int) string { return fmt.Sprintf("00000000-0000-0000-0000-0000000000%02x", n) }
@@ -104,7 +112,7 @@ func (sn *sysnode) rowsFor(stmt string, version int) (*frame.ResultRows, *frame.
 		for _, h := range v.hosts {
 			if h.ip == sn.self {
 				r.Rows = append(r.Rows, [][]byte{frame.TextCell("local"), uuidBytes(h.id), frame.TextCell(h.dc), frame.TextCell(h.rack), frame.TextCell("3.11.4"),
-					frame.TextCell("org.apache.cassandra.dht.Murmur3Partitioner"), frame.TextCell("verif"), tokensCell(version, h.tokens), inetCell(h.ip), inetCell(h.ip), uuidBytes(schemaVersion)})
+					frame.TextCell("org.apache.cassandra.dht.Murmur3Partitioner"), frame.TextCell("verif"), tokensCell(version, h.tokens), inetCell(h.nodeIP()), inetCell(h.ip), uuidBytes(schemaVersion)})
 			}
 		}
 		if sn.localLog != nil {
@@ -129,7 +137,7 @@ func (sn *sysnode) rowsFor(stmt string, version int) (*frame.ResultRows, *frame.
 			if !h.noTok {
 				toks = tokensCell(version, h.tokens)
 			}
-			r.Rows = append(r.Rows, [][]byte{inetCell(h.ip), uuidBytes(h.id), frame.TextCell(h.dc), frame.TextCell(h.rack), frame.TextCell("3.11.4"), toks, inetCell(h.ip), uuidBytes(schemaVersion)})
+			r.Rows = append(r.Rows, [][]byte{inetCell(h.nodeIP()), uuidBytes(h.id), frame.TextCell(h.dc), frame.TextCell(h.rack), frame.TextCell("3.11.4"), toks, inetCell(h.ip), uuidBytes(schemaVersion)})
 		}
 		if sn.peersLog != nil {
 			*sn.peersLog = append(*sn.peersLog, v.String())
